@@ -301,7 +301,7 @@ class YieldChecker:
         if not isinstance(node.value, ast.Tuple) or len(node.value.elts) < 2:
             return
 
-        duplicate_indices = {}  # index to first index
+        duplicate_indices: dict[int, int] = {}  # index to first index
         seen: dict[str, int] = {}  # ast.dump result to index
         for i, member in enumerate(node.value.elts):
             # identical AST nodes don't compare equally, so just stringify them for comparison
@@ -344,23 +344,32 @@ class YieldChecker:
                 #   b = a
                 extra_nodes = []
                 assignment_targets = current_statement.targets[0].elts
+                target_names = [
+                    target.id
+                    for target in assignment_targets
+                    if isinstance(target, ast.Name)
+                ]
+                can_alias = True
                 for i, target in enumerate(assignment_targets):
                     if i not in duplicate_indices:
                         new_targets.append(target)
                     elif not (isinstance(target, ast.Name) and target.id == "_"):
-                        extra_nodes.append(
-                            ast.Assign(
-                                targets=[target],
-                                value=assignment_targets[duplicate_indices[i]],
-                            )
-                        )
+                        source = assignment_targets[duplicate_indices[i]]
+                        # a name that is assigned more than once in this statement
+                        # (typically "_") does not hold the value of the first yield
+                        if (
+                            isinstance(source, ast.Name)
+                            and target_names.count(source.id) > 1
+                        ):
+                            can_alias = False
+                        extra_nodes.append(ast.Assign(targets=[target], value=source))
                 if len(new_targets) == 1:
                     new_target = new_targets[0]
                 else:
                     new_target = ast.Tuple(elts=new_targets)
 
                 new_assign = ast.Assign(targets=[new_target], value=new_yield_node)
-                new_nodes = [new_assign] + extra_nodes
+                new_nodes = [new_assign] + extra_nodes if can_alias else None
         else:
             new_nodes = None
 
